@@ -189,6 +189,123 @@ theorem countStop_of_map_eq (l l' : List (SRec ℝ)) (h : l'.map (·.stop) = l.m
     intro m; simp [countStop, List.filter_map, Function.comp_def]
   rw [e, e, h]
 
+/-- stop flags of the surface list -/
+def stops (P : Presc ℝ) : List Bool := P.surfs.map (·.stop)
+
+theorem stops_setRadius (P : Presc ℝ) (v : ℝ) (k : Nat) : stops (setRadius P v k) = stops P := by
+  simp only [stops, setRadius]; apply map_modifyAt; intro x; cases x.gk <;> rfl
+theorem stops_setConic (P : Presc ℝ) (v : ℝ) (k : Nat) : stops (setConic P v k) = stops P := by
+  simp only [stops, setConic]; apply map_modifyAt; intro x; rfl
+theorem stops_setThickness (P : Presc ℝ) (v : ℝ) (k : Nat) : stops (setThickness P v k) = stops P := by
+  simp only [stops, setThickness, assignZ]
+  apply List.ext_getElem?; intro i
+  simp only [List.getElem?_map, List.getElem?_mapIdx]
+  cases P.surfs[i]? <;> rfl
+theorem stops_setIndex (P : Presc ℝ) (v : ℝ) (k : Nat) : stops (setIndex P v k) = stops P := by
+  simp only [stops, setIndex]
+  have h1 := map_modifyAt (modifyAt P.surfs k fun s => { s with mPost := P.mats.length }) (k+1)
+    (fun s => { s with mPre := P.mats.length }) (fun x : SRec ℝ => x.stop) (fun _ => rfl)
+  have h2 := map_modifyAt P.surfs k (fun s => { s with mPost := P.mats.length })
+    (fun x : SRec ℝ => x.stop) (fun _ => rfl)
+  exact h1.trans h2
+theorem stops_setCoeff (P : Presc ℝ) (v : ℝ) (k i : Nat) : stops (setCoeff P v k i) = stops P := by
+  simp only [stops, setCoeff]; apply map_modifyAt; intro x; rfl
+theorem stops_applyPickup (P : Presc ℝ) (p : Pickup ℝ) : stops (applyPickup P p) = stops P := by
+  unfold applyPickup
+  cases p.attr
+  · exact stops_setRadius _ _ _
+  · exact stops_setConic _ _ _
+  · exact stops_setThickness _ _ _
+theorem stops_applySolve (P : Presc ℝ) (s : Solve ℝ) : stops (applySolve P s) = stops P := by
+  simp only [stops, applySolve]
+  apply List.ext_getElem?; intro i
+  simp only [List.getElem?_map, List.getElem?_mapIdx]
+  cases P.surfs[i]? with
+  | none => rfl
+  | some x => simp only [Option.map_some]; split_ifs <;> rfl
+theorem foldl_stops {β : Type} (f : Presc ℝ → β → Presc ℝ) (hf : ∀ P x, stops (f P x) = stops P) :
+    ∀ (l : List β) (P : Presc ℝ), stops (l.foldl f P) = stops P
+  | [], _ => rfl
+  | x :: l, P => by rw [List.foldl_cons, foldl_stops f hf l, hf]
+theorem stops_update (P : Presc ℝ) : stops (update P) = stops P := by
+  unfold update
+  rw [foldl_stops applySolve stops_applySolve, foldl_stops applyPickup stops_applyPickup]
+theorem stops_imageSolve (P : Presc ℝ) : stops (imageSolve P) = stops P := by
+  simp only [stops, imageSolve]; apply map_modifyAt; intro x; rfl
+theorem stops_scaleSystem (P : Presc ℝ) (s : ℝ) (a b : List Bool) : stops (scaleSystem P s a b) = stops P := by
+  unfold scaleSystem
+  simp only
+  have h : ∀ (l : List Nat) (Q : Presc ℝ) (n : Nat) (radii thick : List ℝ),
+      stops (l.foldl (fun P k =>
+        let P := if a.getD k false then P else setRadius P (radii.getD k 0 * s) k
+        if k ≠ n - 1 ∧ !(b.getD k false) then setThickness P (thick.getD k 0 * s) k else P) Q) = stops Q := by
+    intro l Q n radii thick
+    apply foldl_stops
+    intro P k
+    split_ifs
+    · rw [stops_setThickness]
+    · rfl
+    · rw [stops_setThickness, stops_setRadius]
+    · rw [stops_setRadius]
+  split <;> exact h _ _ _ _ _
+
+/-- one public call keeps "at most one stop" -/
+theorem step_stop (P P' : Presc ℝ) (op : Op ℝ) (h : step P op = .ok P') (h1 : countStop P.surfs ≤ 1) :
+    countStop P'.surfs ≤ 1 := by
+  have keep : stops P' = stops P → countStop P'.surfs ≤ 1 := fun e => by
+    rw [countStop_of_map_eq P.surfs P'.surfs e]; exact h1
+  cases op with
+  | add a => exact addSurface_stop P P' a (by simpa [step] using h) h1
+  | remove i =>
+    simp only [step, removeSurface] at h
+    split_ifs at h
+    injection h with h; rw [← h]
+    exact le_trans (countStop_eraseIdx _ _) h1
+  | addWave v p => simp only [step] at h; injection h with h; rw [← h]; exact h1
+  | setCoeff v k i =>
+    simp only [step] at h
+    split at h
+    · exact absurd h (by simp)
+    · split_ifs at h
+      injection h with h; exact keep (by rw [← h]; exact stops_setCoeff _ _ _ _)
+  | pickupAdd p =>
+    simp only [step] at h; injection h with h
+    exact keep (by rw [← h]; exact stops_applyPickup P p)
+  | solveAdd s =>
+    simp only [step] at h; injection h with h
+    exact keep (by rw [← h]; exact stops_applySolve P s)
+  | update => simp only [step] at h; injection h with h; exact keep (by rw [← h]; exact stops_update P)
+  | imageSolve => simp only [step] at h; injection h with h; exact keep (by rw [← h]; exact stops_imageSolve P)
+  | scale s a b =>
+    simp only [step] at h; injection h with h; exact keep (by rw [← h]; exact stops_scaleSystem P s a b)
+  | setRadius v k =>
+    simp only [step, guardIdx] at h; split_ifs at h; injection h with h
+    exact keep (by rw [← h]; exact stops_setRadius _ _ _)
+  | setConic v k =>
+    simp only [step, guardIdx] at h; split_ifs at h; injection h with h
+    exact keep (by rw [← h]; exact stops_setConic _ _ _)
+  | setThickness v k =>
+    simp only [step, guardIdx] at h; split_ifs at h; injection h with h
+    exact keep (by rw [← h]; exact stops_setThickness _ _ _)
+  | setIndex v k =>
+    simp only [step, guardIdx] at h; split_ifs at h; injection h with h
+    exact keep (by rw [← h]; exact stops_setIndex _ _ _)
+  | setTiltX v k | setTiltY v k | setDecX v k | setDecY v k =>
+    simp only [step, guardIdx] at h; split_ifs at h; injection h with h
+    exact keep (by rw [← h]; simp only [stops]; apply map_modifyAt; intro x; rfl)
+
+/-- **stop_at_most_one**: after any history of public calls (additions anywhere, removals, edits,
+pickups, solves, scaling) at most one surface is the aperture stop -/
+theorem stop_at_most_one (ops : List (Op ℝ)) (P : Presc ℝ) (h : countStop P.surfs ≤ 1) :
+    countStop (runOps P ops).surfs ≤ 1 := by
+  induction ops generalizing P with
+  | nil => exact h
+  | cons op ops ih =>
+    simp only [runOps, List.foldl_cons]
+    cases hs : step P op with
+    | error e => exact ih P h
+    | ok P' => exact ih P' (step_stop P P' op hs h)
+
 /-! ### read-back and frame conditions of the setters -/
 
 /-- `SurfaceGroup.radii[k]`, `conic[k]` … as partial reads -/
